@@ -189,7 +189,8 @@ def jpOK (C : Conn) : Prop :=
   ((C.phase = .login ∨ C.phase = .config ∨ C.phase = .transition) → C.h = .idle → C.beh ≠ .idle → C.result = none) ∧
   ((C.h = .sw1 ∨ C.h = .sw2 ∨ C.h = .sw3) → (C.phase = .config ∧ C.result = none) ∨ (C.phase = .closed ∧ C.result ≠ none)) ∧
   (C.stalled = true → C.h = .idle) ∧
-  (C.result = some .ok → C.phase = .play ∨ C.phase = .closed)
+  (C.result = some .ok → C.phase = .play ∨ C.phase = .closed) ∧
+  (∀ r, C.result = some r → r ≠ .ok → C.phase = .login ∨ C.phase = .transition ∨ C.phase = .closed)
 
 def JP (s : St) : Prop := ∀ c, c < s.nconns → jpOK (s.conns c)
 
@@ -270,6 +271,15 @@ theorem step_mono {cfg : Cfg} {s s' : St} {a : Act} (hJP : JP s) (h : step cfg s
       simp only [upd_apply] at ha
       split at ha <;> simp_all [attempting]
     · simp at h
+  | deadline c0 => simp only [step] at h; split at h <;> simp at h; subst h; exact ha
+  | watch c0 =>
+    simp only [step] at h
+    repeat' (split at h)
+    all_goals (try (simp at h; done))
+    all_goals (injection h with h; subst h)
+    · exact closeConn_attempting _ _ _ ha
+    · simp only [upd_apply] at ha
+      split at ha <;> simp_all [attempting]
   | kick c0 =>
     simp only [step] at h
     split at h
@@ -312,6 +322,12 @@ theorem step_nconns {cfg : Cfg} {s s' : St} {a : Act} (h : step cfg s a = some s
   | spawn m d ev => simp [step] at h; subst h; simp
   | create d tag => simp [step] at h; subst h; simp
   | release c0 => simp only [step] at h; split at h <;> simp at h; subst h; simp
+  | deadline c0 => simp only [step] at h; split at h <;> simp at h; subst h; simp
+  | watch c0 =>
+    simp only [step] at h
+    repeat' (split at h)
+    all_goals (try (simp at h; done))
+    all_goals (injection h with h; subst h; simp)
   | kick c0 => simp only [step] at h; split at h <;> simp at h; subst h; simp
   | drop c0 => simp only [step] at h; split at h <;> simp at h; subst h; simp
   | quit => simp [step] at h; subst h; simp
@@ -348,7 +364,8 @@ theorem stepBack_JP {cfg : Cfg} {s s' : St} {c0 : Nat} (hJP : JP s) (h : stepBac
          split
          · rename_i hcc; subst hcc
            unfold jpOK at hJ0 ⊢
-           first | (simp_all; done) | (cases hp : (s.conns c).phase <;> simp_all)
+           first | (simp_all; done) | (cases hp : (s.conns c).phase <;> simp_all <;>
+             (try (cases hr : (s.conns c).result <;> simp_all)))
          · exact hJc)
 
 theorem stepTask_JP {cfg : Cfg} {s s' : St} {i : Nat} (hJP : JP s) (h : stepTask cfg s i = some s') : JP s' := by
@@ -379,7 +396,8 @@ theorem stepTask_JP {cfg : Cfg} {s s' : St} {i : Nat} (hJP : JP s) (h : stepTask
            simp_all [jpOK]
          · exact hJP c (by simpa using hc))
 
-theorem step_JP {cfg : Cfg} {s s' : St} {a : Act} (hJP : JP s) (h : step cfg s a = some s') : JP s' := by
+theorem step_JP {cfg : Cfg} {s s' : St} {a : Act} (hwc : cfg.watcherCloses = true) (hJP : JP s)
+    (h : step cfg s a = some s') : JP s' := by
   cases a with
   | task i => exact stepTask_JP hJP h
   | back c0 => exact stepBack_JP hJP h
@@ -395,6 +413,14 @@ theorem step_JP {cfg : Cfg} {s s' : St} {a : Act} (hJP : JP s) (h : step cfg s a
       · rename_i hcc; subst hcc; have := hJP c (by simpa using hc); simp_all [jpOK]
       · exact hJP c (by simpa using hc)
     · simp at h
+  | deadline c0 => simp only [step] at h; split at h <;> simp at h; subst h; exact hJP
+  | watch c0 =>
+    simp only [step, hwc, Bool.and_true] at h
+    repeat' (split at h)
+    all_goals (try (simp at h; done))
+    all_goals (injection h with h; subst h)
+    · exact JP_closeConn _ _ hJP
+    · simp_all
   | kick c0 =>
     simp only [step] at h
     split at h
